@@ -222,7 +222,7 @@ ReplayOK(fs, from, o) ==
 
 \* KF_C15_SequenceNotChecksummed: the checksum covers the entry only, so a record whose sequence field
 \* was altered passes verification and is delivered under the altered number
-ReplayKF_SeqNotChecksummed(fs, from, o) ==
+KF_C15_SequenceNotChecksummed(fs, from, o) ==
     /\ BadSites(fs) # {}
     /\ LET p == CHOOSE q \in BadSites(fs) : TRUE
            r == fs[p[1]].recs[p[2]]
